@@ -450,4 +450,100 @@ def occursIn (needle : Str) : Str → Bool
 def urlOk (e : Exch) : Bool :=
   urlScheme (urlConst e) == "wss".toList && occursIn (venueName e) (urlHost (urlConst e))
 
+/-! ## Added after the review of the sub-check theorems: a venue-side reader of the frame TEXT
+
+`Wire.topics` / `Wire.verb` above read a frame off the model's own constructor. The definitions below read the
+JSON **text** of a frame (`Wire.text`, a `List Char`) instead, independently of how it was produced: a lexer
+that recognises string literals (with the `\"` / `\\` escapes; any other character is a token of its own) and,
+on the token list, the venue's documented grammar: the string value of a key (`"op":"subscribe"`), the array of
+string literals after a key (`"args":[..]`), Okx's `args` objects. It is not a JSON parser (no nesting check, no
+numbers); `Lemmas/SubRequests.lean` proves `readText (family e) w.text = some (w.verb, w.topics)` for every
+frame `requests` produces, for all names (`readText_text`). -/
+
+
+/-- a token of a frame's text: a string literal (unescaped) or any other character -/
+inductive Tok where
+  | str (s : Str)
+  | sym (c : Char)
+  deriving DecidableEq, Repr
+
+inductive LexMode where
+  | out
+  | inStr (acc : Str)
+  | esc (acc : Str)
+
+def lexAux : LexMode → Str → List Tok
+  | _, [] => []
+  | .out, c :: cs => if c = '"' then lexAux (.inStr []) cs else .sym c :: lexAux .out cs
+  | .inStr acc, c :: cs =>
+    if c = '\\' then lexAux (.esc acc) cs
+    else if c = '"' then .str acc :: lexAux .out cs
+    else lexAux (.inStr (acc ++ [c])) cs
+  | .esc acc, c :: cs => lexAux (.inStr (acc ++ [c])) cs
+
+def lex (t : Str) : List Tok := lexAux .out t
+
+def stringsAfter (k : Str) : List Tok → List Str
+  | [] => []
+  | t :: rest =>
+    match t, rest with
+    | .str k', .sym c :: .str v :: _ =>
+      if k' = k ∧ c = ':' then v :: stringsAfter k rest else stringsAfter k rest
+    | _, _ => stringsAfter k rest
+
+def leadingStrs : List Tok → List Str
+  | .str s :: r => s :: leadingStrs r
+  | .sym c :: r => if c = ',' then leadingStrs r else []
+  | [] => []
+
+def arrayAfter (k : Str) : List Tok → Option (List Str)
+  | [] => none
+  | t :: rest =>
+    match t, rest with
+    | .str k', .sym c1 :: .sym c2 :: r =>
+      if k' = k ∧ c1 = ':' ∧ c2 = '[' then some (leadingStrs r) else arrayAfter k rest
+    | _, _ => arrayAfter k rest
+
+def stringAfter (k : Str) (ts : List Tok) : Option Str := (stringsAfter k ts).head?
+
+def readText (f : Family) (t : Str) : Option (Str × List Topic) :=
+  let ts := lex t
+  match f with
+  | .binance => do
+    let verb ← stringAfter "method".toList ts
+    let ps ← arrayAfter "params".toList ts
+    some (verb, ps.map fun s => ⟨fromSep '@' s, before '@' s⟩)
+  | .bitmex => do
+    let verb ← stringAfter "op".toList ts
+    let args ← arrayAfter "args".toList ts
+    some (verb, args.map fun s => ⟨before ':' s, after ':' s⟩)
+  | .bybit => do
+    let verb ← stringAfter "op".toList ts
+    let args ← arrayAfter "args".toList ts
+    some (verb, args.map fun s => ⟨before '.' s, after '.' s⟩)
+  | .coinbase => do
+    let verb ← stringAfter "type".toList ts
+    let cs ← arrayAfter "channels".toList ts
+    let ps ← arrayAfter "product_ids".toList ts
+    some (verb, cs.flatMap fun c => ps.map fun m => ⟨c, m⟩)
+  | .gateio => do
+    let verb ← stringAfter "event".toList ts
+    let c ← stringAfter "channel".toList ts
+    let payload ← arrayAfter "payload".toList ts
+    some (verb, payload.map fun m => ⟨c, m⟩)
+  | .kraken => do
+    let verb ← stringAfter "event".toList ts
+    let name ← stringAfter "name".toList ts
+    let pair ← arrayAfter "pair".toList ts
+    some (verb, pair.map fun m => ⟨name, m⟩)
+  | .okx => do
+    let verb ← stringAfter "op".toList ts
+    some (verb, List.zipWith (fun c m => ⟨c, m⟩) (stringsAfter "channel".toList ts) (stringsAfter "instId".toList ts))
+  | .bitfinex => do
+    let verb ← stringAfter "event".toList ts
+    let c ← stringAfter "channel".toList ts
+    let s ← stringAfter "symbol".toList ts
+    some (verb, [⟨c, s⟩])
+
+
 end BarterModel.SubRequests
